@@ -702,8 +702,10 @@ def read_file(prog, chk):
     chk.decide(okslot, 'append', U, f['name'], 'entry-fields', loc,
                'the fields of a crystal being read must be stored into the slot that was counted (crystal[n_crystal before the increment])',
                why='all fields stored into the counted slot')
-    dup_loops = [lp for lp in walk(f['body']) if lp.get('k') == 'ForStmt' and is_dup_loop(lp)]
-    has_bsearch = any(c.get('callee') == 'bsearch' for c in calls_in(f['body']))
+    # the loops that the paths run through (also those of a helper that the engine inlined)
+    seen_loops = {id(e.node): e.node for p in paths for e in p.events if e.kind == 'loop-begin' and e.node is not None}
+    dup_loops = [lp for lp in seen_loops.values() if is_dup_loop(lp)] or [lp for lp in walk(f['body']) if lp.get('k') == 'ForStmt' and is_dup_loop(lp)]
+    has_bsearch = any(c.get('callee') == 'bsearch' for c in calls_in(f['body'])) or any(e.kind == 'call' and e.name == 'bsearch' for p in paths for e in p.events)
     # a match must end in a failure exit, and no success path may have seen one
     rejects = any(k.startswith('strcmp') and v.is_zero() for p in zero_paths(it, paths) for k, v in p.facts.items())
     accepts_dup = any(k.startswith('strcmp') and v.is_zero() for p in vals for k, v in p.facts.items())
